@@ -23,6 +23,7 @@ def decls():
         out.append(D(t + 'sp', t, 0, DEF[t], cbs='p'))
         out.append(D(t + 'lp', t, F_LIST, None, cbs='p'))
         out.append(D(t + 'n', t, F_NODEFAULT))
+        out.append(D(t + 'v', t, simple=True))      # "simple" option: the value is the application's own variable
     out.append(D('ptrs', 'ptr', 0, None, cbs='pf'))
     out.append(D('ptrl', 'ptr', F_LIST, None, cbs='pf'))
     out.append(D('sec', 'sec', F_MULTI | F_TITLE, sub=[D('x', 'int', default=9), D('xs', 'str', default='k')]))
@@ -36,7 +37,7 @@ DECLS = decls()
 NAMES = [d.name for d in DECLS]
 BYNAME = {d.name: d for d in DECLS}
 
-RULE = ('complete enumeration of option kind (int/float/bool/str x scalar/list x with/without parse callback/pre-set validator, no-default) x '
+RULE = ('complete enumeration of option kind (int/float/bool/str x scalar/list x with/without parse callback/pre-set validator, no-default, "simple") x '
         'prepared state (pristine, explicitly set, emptied, annotated, annotated+set, list of 1/3/4, parsed with annotation) x refusing call '
         '(cfg_setmulti with the bad element at every position, cfg_setopt with bad text or failing parse callback, setter vetoed by validcb2, '
         'wrong-type setter, index>0 on a scalar, cfg_addtsec of an existing title, cfg_rmtsec/rmnsec/rmsec of a missing section); oracle: the call '
@@ -101,6 +102,8 @@ def states_for(d):
         return ['empty', 'two', 'parsed']
     if d.typ == 'ptr':
         return ['pristine', 'set', 'annotated', 'annotated+set', 'parsed'] + (['list1', 'list4'] if d.is_list else [])
+    if d.simple:
+        return ['pristine', 'set', 'annotated+set', 'parsed']
     if d.flags & F_NODEFAULT:
         return ['pristine', 'set', 'annotated']
     if d.is_list:
@@ -113,6 +116,13 @@ def calls_for(d):
     t, name = d.typ, d.name
     C = []
     hasp = 'p' in d.cbs
+    if d.simple:
+        wrong = 'str' if t != 'str' else 'int'
+        return [('setter:wrong-type', ['set%s 0 %s %s' % (wrong, hx(name), val_tok(wrong, GOODV[wrong][0]))]),
+                ('opt_setter:wrong-type', ['opt_set%s %s %s 0' % (wrong, optloc(name), val_tok(wrong, GOODV[wrong][0]))]),
+                ('setter:index1', ['set%s 0 %s %s 1' % (t, hx(name), val_tok(t, GOODV[t][1]))]),
+                ('opt_setter:index1', ['opt_set%s %s %s 1' % (t, optloc(name), val_tok(t, GOODV[t][1]))]),
+                ('opt_setter:index7', ['opt_set%s %s %s 7' % (t, optloc(name), val_tok(t, GOODV[t][2]))])]
     if t != 'sec':
         ns = (1, 2, 3, 4) if d.is_list else (1,)
         for n in ns:
